@@ -2,7 +2,7 @@
    byte strings stay the extracted inductive datatypes. *)
 Require Extraction.
 Require Import ExtrOcamlBasic.
-From GP Require Import Bytes Generated Cli FsProto Discover Section Meta PosMap Tree Match Replace FileEngine Program Augment Comments AugmentShape AstDiff.
+From GP Require Import Bytes Generated Cli FsProto Discover Section Meta PosMap Tree Match Replace FileEngine Program Augment Comments AugmentShape AstDiff Loader.
 
 Extraction "gpmodel.ml"
   check_generated_code
@@ -14,4 +14,5 @@ Extraction "gpmodel.ml"
   run_changes connect_dots change_assoc mtch_node inst_node eqvb
   augment Augment.find augs_okb wfb
   changed_intervals cleanup run_steps lines_to_merge
-  diff_snapshot the_script decl_report record_changed.
+  diff_snapshot the_script decl_report record_changed
+  load_patches listed.
